@@ -96,6 +96,42 @@ func init() { registerKind("bits", func() Case { return &BitsCase{} }) }
 
 var c17Noise = []string{"; a comment", "# another", "", "KK\tEQU\t5", "\tGLOBAL _a, _b", "\tEXTERN _c", "[INSTRSET \"i486p\"]", "[FILE \"f.nas\"]", "KQ\tEQU\tKK*2", "[OPTIMIZE 1]"}
 
+// echoable: the same statement text is valid (and free of listed defects) in the other mode
+func echoable(s PStmt, mode int) bool {
+	if s.K != "inst" {
+		return s.K == "data"
+	}
+	for _, o := range s.X.Ops {
+		if o.Kind == XMem && o.ASize == 16 {
+			return false // 16-bit addressing in 32-bit code is F102
+		}
+		if o.Kind == XMem && o.ASize == 0 && (o.Disp > 0xffff || o.Disp < -0x8000) {
+			return false
+		}
+	}
+	x := *s.X
+	x.Mode = mode
+	return sizeSafe(&x)
+}
+
+// echoes: copies of statements of the previous group, to be assembled again in the other mode
+// (a cache keyed by statement text without the mode would replay the wrong size or bytes)
+func echoes(r *Rand, prev []PStmt, mode int) []PStmt {
+	var out []PStmt
+	for _, s := range prev {
+		if echoable(s, mode) && r.Chance(1, 2) {
+			c := s
+			if s.K == "inst" {
+				x := *s.X
+				x.Mode = mode
+				c.X = &x
+			}
+			out = append(out, c)
+		}
+	}
+	return out
+}
+
 func genC17(r *Rand) *BitsCase {
 	c := &BitsCase{}
 	n := r.Range(1, 5)
@@ -115,7 +151,11 @@ func genC17(r *Rand) *BitsCase {
 			}
 			c.Modes = append(c.Modes, mode)
 		}
-		c.Segs = append(c.Segs, poolSeq(r, mode, 1, 6))
+		seg := poolSeq(r, mode, 1, 6)
+		if i > 0 && r.Bool() {
+			seg = append(echoes(r, c.Segs[i-1], mode), seg...)
+		}
+		c.Segs = append(c.Segs, seg)
 	}
 	taken := map[string]bool{}
 	add := func(dst *[]string, k int) {
@@ -148,6 +188,7 @@ func genC17Walk(r *Rand) *ProgCase {
 	}
 	p.Stmts = append(p.Stmts, PStmt{K: "movl", Reg: probeReg(16, r.Intn(8)), Label: "zend"})
 	n := r.Range(2, 5)
+	var lastGroup []PStmt
 	for i := 0; i < n; i++ {
 		if i > 0 {
 			mode = 48 - mode
@@ -160,8 +201,14 @@ func genC17Walk(r *Rand) *ProgCase {
 			p.Stmts = append(p.Stmts, PStmt{K: "jmp", Mn: Pick(r, []string{"JMP", "JE", "JNZ", "CALL", "JC", "JAE"}), Label: l})
 			jumped = true
 		}
+		if i > 0 && r.Bool() {
+			p.Stmts = append(p.Stmts, echoes(r, lastGroup, mode)...)
+		}
+		lastGroup = nil
 		for k := r.Range(1, 4); k > 0; k-- {
-			p.Stmts = append(p.Stmts, poolStmtSized(r, mode))
+			st := poolStmtSized(r, mode)
+			lastGroup = append(lastGroup, st)
+			p.Stmts = append(p.Stmts, st)
 			if !jumped && r.Chance(1, 4) {
 				p.Stmts = append(p.Stmts, PStmt{K: "jmp", Mn: Pick(r, []string{"JMP", "JE", "CALL"}), Label: l})
 				jumped = true
